@@ -54,29 +54,43 @@ func (dp *DataProcessor) Process() {
 
 	// Main processing loop
 	for {
-		// Safely access dataChan using read lock
+		// Receive while holding the read lock. expandDataChannel moves the buffered
+		// rows to the new channel under the write lock; a receive from a channel
+		// reference read earlier could otherwise take a later row from the old
+		// channel after earlier rows were already migrated, processing one
+		// producer's rows out of order. The lock is released before the row is
+		// processed, and at least every ticker period while idle.
 		dp.stream.dataChanMux.RLock()
 		currentDataChan := dp.stream.dataChan
-		dp.stream.dataChanMux.RUnlock()
 
 		// Check if dataChan is nil (stream has been stopped)
 		if currentDataChan == nil {
+			dp.stream.dataChanMux.RUnlock()
 			return
 		}
 
 		verifYieldPoint("cons.recv")
+		var (
+			data     map[string]any
+			received bool
+			stop     bool
+		)
 		select {
-		case data, ok := <-currentDataChan:
-			if !ok {
-				// Channel is closed
-				return
-			}
-			dp.processItem(data)
+		case item, ok := <-currentDataChan:
+			// !ok: channel is closed
+			data, received, stop = item, ok, !ok
 		case <-dp.stream.done:
 			// Received close signal
-			return
+			stop = true
 		case <-ticker.C:
 			// Timer triggered, do nothing, just prevent CPU spinning
+		}
+		dp.stream.dataChanMux.RUnlock()
+		if stop {
+			return
+		}
+		if received {
+			dp.processItem(data)
 		}
 	}
 }
